@@ -523,11 +523,14 @@ func RunCheck(cfg *CheckConfig) *CheckOutcome {
 			}
 		}
 		key += "|" + knownID
-		lim := 1
+		// several counterexamples per event: a candidate that rests on an
+		// over-approximated answer (encoding of a decimal, map order) may need a
+		// different concretisation to reproduce
+		lim := 3
 		if f.Kind == "sharedwrite" || sharedWriteMsg(f.Msg) != "" {
 			lim = 4
 		}
-		if perKey[key] >= lim || len(pend) >= 80 {
+		if perKey[key] >= lim || len(pend) >= 120 {
 			continue
 		}
 		perKey[key]++
